@@ -117,6 +117,11 @@ def compare(ck, prog, text, preds, real, model, key_of, extra=None, ignore_empty
     rp = {'program': text, 'pred': p.name, 'expected_rows': exp_rows[:50]}
     if extra:
       rp.update(extra)
+    if r['kind'] == 'parsing' and 'Signature differs for bodies' in r.get('message', ''):
+      # the rules of a multi-body aggregating predicate must spell their arguments in one order: a documented
+      # restriction reported by a diagnostic; when such a program is accepted its rows are judged as usual
+      ck.features['multi-body-signature-order-rejected'] += 1
+      continue
     if r['kind'] == 'too_big':
       ck.features['capacity-skipped'] += 1      # the plan exceeds the harness's SQLite budget: abandoned, not judged
       continue
@@ -126,7 +131,9 @@ def compare(ck, prog, text, preds, real, model, key_of, extra=None, ignore_empty
                        p.name, r['kind'], r.get('message', '')[:200], len(exp_rows)), rp)
       n_bad += 1
       continue
-    if list(r['header']) != list(p.cols):
+    if getattr(prog, 'named_shuffled', False) and sorted(r['header']) == sorted(p.cols):
+      pass      # named arguments were written in another order: columns are identified by name
+    elif list(r['header']) != list(p.cols):
       ck.violation(key_of(p, 'columns'), 'predicate %s: columns %s, expected %s' % (p.name, r['header'], p.cols), rp)
       n_bad += 1
       continue
